@@ -78,7 +78,7 @@ def gen_files(rng, syms, d0):
             # a flat / pegged instrument: a later bar identical in every column to an earlier one (the dates differ)
             rows.sort(key=lambda r: r[0])
             i0 = rng.randrange(0, len(rows) - 1)
-            j0 = rng.randrange(i0 + 1, len(rows))
+            j0 = i0 + 1 if rng.random() < 0.5 else rng.randrange(i0 + 1, len(rows))      # often the very next bar (a padded holiday)
             rows[j0] = [rows[j0][0]] + list(rows[i0][1:])
         if rows and rng.random() < 0.25:
             # a calendar that starts before the listing: leading rows whose price cells are all empty
